@@ -1,6 +1,7 @@
 import BpModel.All
 import BpProofs.Load
 import BpProofs.Varint
+import BpProofs.Presence
 /-
   C17, last sentence: whatever `parse` returns is a message in which every field holds a
   value of its declared Python type (`msgTypedB false`), and — for an input made of bytes —
@@ -744,16 +745,16 @@ theorem prepCurrent_typed (s : Bool) (S : Schema) (d : MsgD) (st : MState) (idx 
   · exact ⟨h.1, slotsTyped_set s S _ _ idx f _ h.2 hf
       (materialize_typed s S f hw _ (slotsTyped_getD s S _ _ idx f h.2 hf))⟩
 
-theorem getD_setAt_self (xs : List Val) (i : Nat) (v : Val) (h : i < xs.length) :
+theorem ty_getD_setAt_self (xs : List Val) (i : Nat) (v : Val) (h : i < xs.length) :
     (setAt xs i v).getD i .ph = v := by
   unfold setAt
   simp [List.getD_eq_getElem?_getD, h]
 
-theorem resetGroup_length (g idx : Nat) : ∀ (fs : List FieldD) (ss : List Val) (j : Nat),
+theorem ty_resetGroup_length (g idx : Nat) : ∀ (fs : List FieldD) (ss : List Val) (j : Nat),
     (resetGroup g idx fs ss j).length = ss.length
   | [], ss, _ => by cases ss <;> simp [resetGroup]
   | _ :: _, [], _ => by simp [resetGroup]
-  | f :: fs, v :: vs, j => by simp [resetGroup, resetGroup_length g idx fs vs (j + 1)]
+  | f :: fs, v :: vs, j => by simp [resetGroup, ty_resetGroup_length g idx fs vs (j + 1)]
 
 theorem setAttr_slot (S : Schema) (fs : List FieldD) (st : MState) (idx : Nat) (f : FieldD) (v : Val)
     (hf : fs[idx]? = some f) (hl : idx < st.slots.length) :
@@ -761,8 +762,8 @@ theorem setAttr_slot (S : Schema) (fs : List FieldD) (st : MState) (idx : Nat) (
   unfold setAttr
   simp only [hf]
   cases f.group with
-  | none => exact getD_setAt_self _ _ _ hl
-  | some g => exact getD_setAt_self _ _ _ (by rw [resetGroup_length]; exact hl)
+  | none => exact ty_getD_setAt_self _ _ _ hl
+  | some g => exact ty_getD_setAt_self _ _ _ (by rw [ty_resetGroup_length]; exact hl)
 
 /-- after the attribute read, the slot of a repeated field holds a list -/
 theorem prepCurrent_list (s : Bool) (S : Schema) (d : MsgD) (st : MState) (idx : Nat) (f : FieldD)
@@ -776,7 +777,7 @@ theorem prepCurrent_list (s : Bool) (S : Schema) (d : MsgD) (st : MState) (idx :
   split
   · rw [setAttr_slot S _ _ _ f _ hf hidx, hdef]; exact ⟨[], rfl⟩
   · simp only
-    rw [getD_setAt_self _ _ _ hidx]
+    rw [ty_getD_setAt_self _ _ _ hidx]
     have hslot := slotsTyped_getD s S _ _ idx f h.2 hf
     generalize st.slots.getD idx .ph = v at hslot
     have hopt := wfField_rep hw hr
@@ -997,5 +998,353 @@ theorem parse_typed (s : Bool) (S : Schema) (hS : WfSchemaT S) (c : Nat) (bs : B
       have hst := loadInto_typed s S hS _ d _ bs st (wfSchema_class S hS c d hd) hb
         (freshState_typed s S d) hl
       simp [MState.toVal, msgTypedB, hd, hst.1, hst.2]
+
+/-! ### the encoder is total on typed values -/
+
+theorem dumpVarint_total (v : Int) (h : -9223372036854775808 ≤ v) : ∃ b, dumpVarint v = .ok b := by
+  unfold dumpVarint two63
+  have h1 : ¬ (v < -9223372036854775808) := by omega
+  simp only [h1, if_false]
+  split <;> exact ⟨_, rfl⟩
+
+theorem frame_total (num : Nat) (t : PType) (pre : Bytes) (se wr : Bool) : ∃ b, frame num t pre se wr = .ok b := by
+  unfold frame
+  simp only [dumpVarint_nat, Except.bind]
+  cases t <;> simp [wireVarintTypes, wireFixed32Types, wireFixed64Types, wireLenDelimTypes] <;>
+    (split <;> simp)
+
+theorem prepPlain_total (t : PType) (v : Val) (h : scalarTypedB true t v = true) : ∃ b, prepPlain t v = .ok b := by
+  cases v <;> simp [scalarTypedB] at h
+  · -- int
+    rename_i i
+    obtain ⟨hi, he⟩ := h
+    cases t <;> simp [isIntTy] at hi <;> simp [intEncB] at he <;>
+      simp [prepPlain, isFixed, fixedTypes, asInt, packFixed, fmtOf, packFmt, he]
+    all_goals first
+      | exact dumpVarint_total _ he
+      | exact dumpVarint_total _ (by have := zig_nonneg i; omega)
+  · subst h; simp [prepPlain, asInt]; split <;> exact dumpVarint_total _ (by omega)
+  · obtain ⟨ht, hb⟩ := h; subst ht; simp [prepPlain, isFixed, fixedTypes, packFixed, fmtOf, packFmt, hb]
+  · obtain ⟨ht, hb⟩ := h; subst ht; simp [prepPlain, isFixed, fixedTypes, packFixed, fmtOf, packFmt, hb]
+  · obtain ⟨ht, _⟩ := h; subst ht; simp [prepPlain, isFixed, fixedTypes]
+  · subst h; simp [prepPlain, isFixed, fixedTypes]
+
+theorem secNanosBytes_total (sec n : Int) (h1 : -9223372036854775808 ≤ sec) (h2 : -9223372036854775808 ≤ n) :
+    ∃ b, secNanosBytes sec n = .ok b := by
+  unfold secNanosBytes
+  obtain ⟨a, ha⟩ : ∃ a, (if sec == 0 then (.ok [] : R Bytes)
+      else (dumpVarint sec).bind fun b => frame 1 .int64 b false false) = .ok a := by
+    split
+    · exact ⟨_, rfl⟩
+    · obtain ⟨b, hb⟩ := dumpVarint_total sec h1
+      rw [hb]; exact frame_total _ _ _ _ _
+  obtain ⟨c, hc⟩ : ∃ a, (if n == 0 then (.ok [] : R Bytes)
+      else (dumpVarint n).bind fun b => frame 2 .int32 b false false) = .ok a := by
+    split
+    · exact ⟨_, rfl⟩
+    · obtain ⟨b, hb⟩ := dumpVarint_total n h2
+      rw [hb]; exact frame_total _ _ _ _ _
+  rw [ha, hc]; exact ⟨_, rfl⟩
+
+theorem tsBytes_total (us : Int) (h : tsRangeB us = true) : ∃ b, tsBytes us = .ok b := by
+  unfold tsRangeB tsMinUs tsMaxUs at h
+  simp only [Bool.and_eq_true, decide_eq_true_eq] at h
+  unfold tsBytes tsSplit
+  exact secNanosBytes_total _ _ (by omega) (by omega)
+
+theorem durBytes_total (us : Int) (h : durRangeB us = true) : ∃ b, durBytes us = .ok b := by
+  unfold durRangeB durMinUs durMaxUs at h
+  simp only [Bool.and_eq_true, decide_eq_true_eq] at h
+  unfold durBytes durSplit
+  simp only
+  split <;> exact secNanosBytes_total _ _ (by omega) (by omega)
+
+theorem wrapperBytes_total (S : Schema) (w : PType) (v : Val) (h : scalarTypedB true w v = true) :
+    ∃ b, wrapperBytes S w v = .ok b := by
+  unfold wrapperBytes
+  split
+  · exact ⟨_, rfl⟩
+  · obtain ⟨p, hp⟩ := prepPlain_total w v h
+    rw [hp]; exact frame_total _ _ _ _ _
+
+theorem scalarTyped_ne_message (s : Bool) (v : Val) : scalarTypedB s .message v = false := by
+  cases v <;> simp [scalarTypedB, isIntTy]
+
+/-- `_serialize_single` succeeds on every typed element that is not a message instance -/
+theorem serializeScalar_total (S : Schema) (f : FieldD) (num : Nat) (v : Val) (se : Bool)
+    (h : leafTypedB true f v = true) : ∃ b, serializeScalar S num f.ty v se f.wraps = .ok b := by
+  unfold serializeScalar
+  suffices hp : ∃ p, prepScalar S f.ty f.wraps v = .ok p by
+    obtain ⟨p, hp⟩ := hp
+    rw [hp]; exact frame_total _ _ _ _ _
+  unfold prepScalar
+  by_cases hm : f.ty = .message
+  · simp only [hm, beq_self_eq_true, if_true]
+    cases v <;> simp [leafTypedB] at h
+    case ts us => exact tsBytes_total us h.2
+    case dur us => exact durBytes_total us h.2
+    all_goals
+      (unfold elemTy at h
+       simp only [hm, beq_self_eq_true, if_true] at h
+       cases hk : f.kind <;> cases hwr : f.wraps <;> simp [hk, hwr] at h
+       exact wrapperBytes_total S _ _ h)
+  · have hm' : (f.ty == PType.message) = false := by simpa using hm
+    simp only [hm', Bool.false_eq_true, if_false]
+    apply prepPlain_total
+    cases v <;> simp [leafTypedB, hm, elemTy_plain f hm] at h <;> exact h
+
+theorem defKind_msg (f : FieldD) (c : Nat) (h : f.defKind = .msg c) : f.ty = .message := by
+  unfold FieldD.defKind at h
+  split at h
+  · simp at h
+  · split at h
+    · simp at h
+    · split at h
+      · simp at h
+      · split at h
+        · rename_i hm; simpa using hm
+        · cases ht : f.ty <;> simp [ht, scalarDef] at h
+
+theorem dumpDefault_total (S : Schema) (f : FieldD) (sel : Bool) (hw : wfFieldB S.length f = true) :
+    ∃ b, dumpDefault S f sel = .ok b := by
+  have hdef := defaultOf_typed true S f hw
+  unfold defaultOf at hdef
+  unfold dumpDefault
+  cases hk : f.defKind <;> rw [hk] at hdef <;> simp only [defaultOfKind] at hdef
+  case none => exact ⟨_, rfl⟩
+  case list =>
+    simp only
+    split
+    · exact ⟨_, rfl⟩
+    · split
+      · exact frame_total _ _ _ _ _
+      · exact ⟨_, rfl⟩
+  case dict =>
+    simp only
+    split <;> exact ⟨_, rfl⟩
+  case msg c =>
+    simp only
+    split
+    · exact ⟨_, rfl⟩
+    · rw [defKind_msg f c hk]
+      simp only [beq_self_eq_true, if_true]
+      exact frame_total _ _ _ _ _
+  all_goals
+    (simp only
+     split
+     · exact ⟨_, rfl⟩
+     · simp only [defaultOfKind]
+       simp only [slotTypedB, Bool.and_eq_true] at hdef
+       exact serializeScalar_total S f _ _ _ hdef.2)
+
+theorem prepPacked_total (S : Schema) (f : FieldD) (hp : isPacked f.ty = true) :
+    ∀ xs : List Val, itemsTypedB true S f xs = true → ∃ b, prepPacked S f.ty xs = .ok b
+  | [], _ => ⟨[], rfl⟩
+  | x :: xs, h => by
+    have hne : f.ty ≠ .message := by intro e; rw [e] at hp; simp [isPacked, packedTypes] at hp
+    rw [items_cons] at h
+    simp only [Bool.and_eq_true] at h
+    obtain ⟨b, hb⟩ := prepPacked_total S f hp xs h.2
+    obtain ⟨a, ha⟩ := prepPlain_total f.ty x (item_scalar true S f x hne h.1)
+    have hm' : (f.ty == PType.message) = false := by simpa using hne
+    rw [prepPacked]
+    simp only [prepScalar, hm', Bool.false_eq_true, if_false, ha, hb]
+    exact ⟨_, rfl⟩
+
+theorem fieldsOf_some (S : Schema) (c : Nat) (d : MsgD) (h : S[c]? = some d) : fieldsOf S c = d.fields := by
+  simp [fieldsOf, h]
+
+mutual
+theorem dumpSlot_total (S : Schema) (hS : WfSchemaT S) (f : FieldD) (hw : wfFieldB S.length f = true)
+    (hid sel : Bool) : ∀ (v : Val), slotTypedB true S f v = true → ∃ b, dumpSlot S f hid sel v = .ok b
+  | .ph, _ => by
+    rw [dumpSlot]
+    split
+    · exact ⟨_, rfl⟩
+    · exact dumpDefault_total S f sel hw
+  | .none, _ => ⟨[], by rw [dumpSlot]⟩
+  | .list xs, h => by
+    rw [slotTypedB] at h
+    simp only [Bool.and_eq_true] at h
+    rw [dumpSlot]
+    split
+    · exact ⟨_, rfl⟩
+    · simp only
+      split
+      · exact ⟨_, rfl⟩
+      · split
+        · rename_i hp
+          obtain ⟨b, hb⟩ := prepPacked_total S f hp xs h.2
+          rw [hb]; exact frame_total _ _ _ _ _
+        · exact dumpItems_total S hS f xs h.2
+  | .dict ks vs, h => by
+    rw [slotTypedB] at h
+    simp only [Bool.and_eq_true, beq_iff_eq] at h
+    rw [dumpSlot]
+    split
+    · exact ⟨_, rfl⟩
+    · simp only
+      split
+      · exact ⟨_, rfl⟩
+      · exact dumpEntries_total S hS f hw h.1.1.1.1 ks vs h.1.2 h.2
+  | .msg c sl ow unk cur, h => by
+    rw [slotTypedB] at h
+    simp only [Bool.and_eq_true] at h
+    obtain ⟨⟨_, hmf⟩, hbody⟩ := h
+    unfold msgFieldB at hmf
+    simp only [Bool.and_eq_true, beq_iff_eq, Option.isNone_iff_eq_none] at hmf
+    rw [dumpSlot]
+    split
+    · exact ⟨_, rfl⟩
+    · simp only
+      split
+      · exact ⟨_, rfl⟩
+      · cases hd : S[c]? with
+        | none => rw [hd] at hbody; simp at hbody
+        | some d =>
+          rw [hd] at hbody
+          simp only [Bool.and_eq_true] at hbody
+          obtain ⟨b, hb⟩ := dumpSlots_total S hS (fieldsOf S c) cur sl d.fields 0 hbody.2
+            (by intro j; rw [fieldsOf_some S c d hd]; simp) (wfSchema_class S hS c d hd)
+          rw [hb]
+          simp only [bind_ok, hmf.1.1, hmf.2, beq_self_eq_true, Option.isNone_none, Bool.and_self, if_true]
+          exact frame_total _ _ _ _ _
+  | .int _, h | .bool _, h | .f32 _, h | .f64 _, h | .str _, h | .byt _, h | .ts _, h | .dur _, h => by
+    simp only [slotTypedB, Bool.and_eq_true] at h
+    rw [dumpSlot_plain _ _ _ _ _ rfl]
+    split
+    · exact ⟨_, rfl⟩
+    · split
+      · exact ⟨_, rfl⟩
+      · exact serializeScalar_total S f _ _ _ h.2
+
+theorem dumpSlots_total (S : Schema) (hS : WfSchemaT S) (fs : List FieldD) (cur : List (Option Nat)) :
+    ∀ (sl : List Val) (fs' : List FieldD) (idx : Nat), slotsTypedB true S fs' sl = true →
+      (∀ j, fs[idx + j]? = fs'[j]?) → (∀ f ∈ fs', wfFieldB S.length f = true) →
+      ∃ b, dumpSlots S fs cur idx sl = .ok b
+  | [], _, _, _, _, _ => ⟨[], by rw [dumpSlots]⟩
+  | _ :: _, [], _, h, _, _ => by simp [slotsTypedB] at h
+  | v :: vs, f :: fs', idx, h, hfs, hwf => by
+    rw [slotsTypedB] at h
+    simp only [Bool.and_eq_true] at h
+    have hf : fs[idx]? = some f := by simpa using hfs 0
+    rw [dumpSlots]
+    simp only [hf]
+    obtain ⟨a, ha⟩ := dumpSlot_total S hS f (hwf f (by simp)) (hidden f idx cur) (selectedInGroup f idx cur) v h.1
+    obtain ⟨b, hb⟩ := dumpSlots_total S hS fs cur vs fs' (idx + 1) h.2
+      (by intro j; have := hfs (j + 1); simpa [Nat.add_assoc, Nat.add_comm 1 j] using this)
+      (fun g hg => hwf g (by simp [hg]))
+    rw [ha, hb]; exact ⟨_, rfl⟩
+
+theorem dumpItems_total (S : Schema) (hS : WfSchemaT S) (f : FieldD) :
+    ∀ (xs : List Val), itemsTypedB true S f xs = true → ∃ b, dumpItems S f xs = .ok b
+  | [], _ => ⟨[], by rw [dumpItems]⟩
+  | .msg c sl ow unk cur :: xs, h => by
+    rw [itemsTypedB] at h
+    simp only [Bool.and_eq_true] at h
+    obtain ⟨⟨hmf, hbody⟩, hrest⟩ := h
+    unfold msgFieldB at hmf
+    simp only [Bool.and_eq_true, beq_iff_eq, Option.isNone_iff_eq_none] at hmf
+    obtain ⟨r, hr⟩ := dumpItems_total S hS f xs hrest
+    cases hd : S[c]? with
+    | none => rw [hd] at hbody; simp at hbody
+    | some d =>
+      rw [hd] at hbody
+      simp only [Bool.and_eq_true] at hbody
+      obtain ⟨b, hb⟩ := dumpSlots_total S hS (fieldsOf S c) cur sl d.fields 0 hbody.2
+        (by intro j; rw [fieldsOf_some S c d hd]; simp) (wfSchema_class S hS c d hd)
+      rw [dumpItems]
+      simp only [hb, bind_ok, hmf.1.1, hmf.2, beq_self_eq_true, Option.isNone_none, Bool.and_self, if_true]
+      obtain ⟨a, ha⟩ := frame_total f.num PType.message (b ++ unk) true false
+      rw [ha, hr]; exact ⟨_, rfl⟩
+  | .ph :: xs, h | .none :: xs, h | .list _ :: xs, h | .dict _ _ :: xs, h => by
+    simp [itemsTypedB, leafTypedB] at h
+  | .int _ :: xs, h | .bool _ :: xs, h | .f32 _ :: xs, h | .f64 _ :: xs, h | .str _ :: xs, h
+  | .byt _ :: xs, h | .ts _ :: xs, h | .dur _ :: xs, h => by
+    simp only [itemsTypedB, Bool.and_eq_true] at h
+    obtain ⟨r, hr⟩ := dumpItems_total S hS f xs h.2
+    obtain ⟨a, ha⟩ := serializeScalar_total S f f.num _ true h.1
+    rw [dumpItems]
+    · simp only [ha, hr]
+      exact ⟨_, rfl⟩
+    all_goals (intros; contradiction)
+
+theorem dumpEntries_total (S : Schema) (hS : WfSchemaT S) (f : FieldD) (hw : wfFieldB S.length f = true)
+    (ht : f.ty = .map) :
+    ∀ (ks vs : List Val), itemsTypedB true S (keyFieldOf f) ks = true → itemsTypedB true S (valFieldOf f) vs = true →
+      ∃ b, dumpEntries S f ks vs = .ok b
+  | [], _, _, _ => ⟨[], by rw [dumpEntries]; all_goals (intros; contradiction)⟩
+  | _ :: _, [], _, _ => ⟨[], by rw [dumpEntries]; all_goals (intros; contradiction)⟩
+  | k :: ks, .msg c sl ow unk cur :: vs, hk, hv => by
+    rw [items_cons] at hk
+    simp only [Bool.and_eq_true] at hk
+    rw [itemsTypedB] at hv
+    simp only [Bool.and_eq_true] at hv
+    obtain ⟨⟨hmf, hbody⟩, hrest⟩ := hv
+    unfold msgFieldB at hmf
+    simp only [Bool.and_eq_true, beq_iff_eq, Option.isNone_iff_eq_none] at hmf
+    have hmv : f.mapV = .message := hmf.1.1
+    obtain ⟨r, hr⟩ := dumpEntries_total S hS f hw ht ks vs hk.2 hrest
+    obtain ⟨hsk, _, _⟩ := wfField_map hw ht
+    unfold isScalarTy at hsk
+    simp only [Bool.and_eq_true, bne_iff_ne, ne_eq] at hsk
+    have hkl : leafTypedB true (keyFieldOf f) k = true := by
+      apply leaf_of_scalar true (keyFieldOf f) f.mapK k (elemTy_plain (keyFieldOf f) hsk.1)
+      exact item_scalar true S (keyFieldOf f) k hsk.1 hk.1
+    obtain ⟨sk, hsk'⟩ := serializeScalar_total S (keyFieldOf f) 1 k false hkl
+    cases hd : S[c]? with
+    | none => rw [hd] at hbody; simp at hbody
+    | some d =>
+      rw [hd] at hbody
+      simp only [Bool.and_eq_true] at hbody
+      obtain ⟨b, hb⟩ := dumpSlots_total S hS (fieldsOf S c) cur sl d.fields 0 hbody.2
+        (by intro j; rw [fieldsOf_some S c d hd]; simp) (wfSchema_class S hS c d hd)
+      rw [dumpEntries]
+      have hsk2 : serializeScalar S 1 f.mapK k false Option.none = .ok sk := hsk'
+      simp only [hsk2, hb, bind_ok, hmv, beq_self_eq_true, if_true]
+      obtain ⟨sv, hsv⟩ := frame_total 2 PType.message (b ++ unk) false false
+      obtain ⟨e, he⟩ := frame_total f.num f.ty (sk ++ sv) true false
+      rw [hsv]; simp only [bind_ok]; rw [he, hr]; exact ⟨_, rfl⟩
+  | k :: ks, .ph :: vs, _, hv | k :: ks, .none :: vs, _, hv | k :: ks, .list _ :: vs, _, hv
+  | k :: ks, .dict _ _ :: vs, _, hv => by
+    simp [itemsTypedB, leafTypedB] at hv
+  | k :: ks, .int _ :: vs, hk, hv | k :: ks, .bool _ :: vs, hk, hv | k :: ks, .f32 _ :: vs, hk, hv
+  | k :: ks, .f64 _ :: vs, hk, hv | k :: ks, .str _ :: vs, hk, hv | k :: ks, .byt _ :: vs, hk, hv
+  | k :: ks, .ts _ :: vs, hk, hv | k :: ks, .dur _ :: vs, hk, hv => by
+    rw [items_cons] at hk
+    simp only [Bool.and_eq_true] at hk
+    simp only [itemsTypedB, Bool.and_eq_true] at hv
+    obtain ⟨r, hr⟩ := dumpEntries_total S hS f hw ht ks vs hk.2 hv.2
+    obtain ⟨hsk, _, _⟩ := wfField_map hw ht
+    unfold isScalarTy at hsk
+    simp only [Bool.and_eq_true, bne_iff_ne, ne_eq] at hsk
+    have hkl : leafTypedB true (keyFieldOf f) k = true := by
+      apply leaf_of_scalar true (keyFieldOf f) f.mapK k (elemTy_plain (keyFieldOf f) hsk.1)
+      exact item_scalar true S (keyFieldOf f) k hsk.1 hk.1
+    obtain ⟨sk, hsk'⟩ := serializeScalar_total S (keyFieldOf f) 1 k false hkl
+    obtain ⟨sv, hsv'⟩ := serializeScalar_total S (valFieldOf f) 2 _ false hv.1
+    have hsk2 : serializeScalar S 1 f.mapK k false Option.none = .ok sk := hsk'
+    rw [dumpEntries]
+    · have hsv2 := hsv'
+      simp only [valFieldOf] at hsv2
+      simp only [hsk2, hsv2, bind_ok]
+      obtain ⟨e, he⟩ := frame_total f.num f.ty (sk ++ sv) true false
+      rw [he, hr]; exact ⟨_, rfl⟩
+    all_goals (intros; contradiction)
+end
+
+/-- **a typed message of the encoder's domain can be encoded** -/
+theorem dumpVal_total (S : Schema) (hS : WfSchemaT S) (m : Val) (h : msgTypedB true S m = true) :
+    ∃ bs', dumpVal S m = .ok bs' := by
+  cases m <;> simp [msgTypedB] at h
+  rename_i c sl ow unk cur
+  cases hd : S[c]? with
+  | none => rw [hd] at h; simp at h
+  | some d =>
+    rw [hd] at h
+    simp only [Bool.and_eq_true] at h
+    obtain ⟨b, hb⟩ := dumpSlots_total S hS (fieldsOf S c) cur sl d.fields 0 h.2
+      (by intro j; rw [fieldsOf_some S c d hd]; simp) (wfSchema_class S hS c d hd)
+    rw [dumpVal, hb]; exact ⟨_, rfl⟩
 
 end Bp
